@@ -41,7 +41,7 @@ META = {
     "assumptions": ["str(ndarray) is truncated beyond numpy's print threshold", "repr() of operators is not injective (checked: Projection.__repr__ has sizes only)"],
     "technique": "def-use key-completeness analysis over the class hierarchy",
 }
-MIN_INSTANCES = {"R1": 14, "R2": 5, "R3": 4, "R4": 8, "R5": 3, "R6": 2}
+MIN_INSTANCES = {"R1": 14, "R2": 5, "R3": 5, "R4": 8, "R5": 3, "R6": 2, "R7": 1}
 
 # attribute of class determined by other attributes (which must then be in the key)
 DERIVED = {
@@ -240,23 +240,45 @@ def key_flow_reads(fn: ast.FunctionDef, base: str = "self") -> list[str]:
     return out
 
 
-def _same_param_derivation(init: ast.FunctionDef, a: str, k: str) -> bool:
-    """In __init__, are self.a and self.k both computed from the same (non-empty) set of parameters?"""
+def _same_param_derivation(init: ast.FunctionDef, a: str, k: str) -> str | None:
+    """In __init__, how does the key attribute self.k relate to the evaluated attribute self.a?
+    "func"      self.k is computed from self.a (k = f(a)): equal a => equal k
+    "identity"  self.a stores a name (parameter / local) unconverted and self.k is computed from that same name
+    "converted" both derive from the same parameters but self.a is a conversion of them (a = g(p), k = h(p)): equal a does
+                not imply equal k (g need not be injective, e.g. astype(float)) nor the converse
+    None        unrelated"""
     params = {p.arg for p in init.args.args[1:]} | {p.arg for p in init.args.kwonlyargs}
 
-    def roots(attr: str) -> set[str]:
-        r: set[str] = set()
+    def stores(attr: str) -> list[ast.expr]:
+        out = []
         for s in walk_local(init):
             if isinstance(s, (ast.Assign, ast.AnnAssign)) and getattr(s, "value", None) is not None:
                 tg = s.targets if isinstance(s, ast.Assign) else [s.target]
                 if any(u(t) == f"self.{attr}" for t in tg):
-                    r |= names_in(s.value) & params
-                    for n in ast.walk(s.value):  # self._x references resolved one level
-                        if isinstance(n, ast.Attribute) and u(n.value) == "self":
-                            r |= roots(n.attr) if n.attr != attr else set()
+                    out.append(s.value)
+        return out
+
+    def roots(attr: str, seen=()) -> set[str]:
+        r: set[str] = set()
+        for v in stores(attr):
+            r |= names_in(v) & params
+            for n in ast.walk(v):  # self._x references resolved one level
+                if isinstance(n, ast.Attribute) and u(n.value) == "self" and n.attr != attr and n.attr not in seen:
+                    r |= roots(n.attr, seen + (attr,))
+            for n in names_in(v) - params:  # locals: one level
+                for st in walk_local(init):
+                    if isinstance(st, ast.Assign) and any(u(t) == n for t in st.targets):
+                        r |= names_in(st.value) & params
         return r
     ra, rk = roots(a), roots(k)
-    return bool(ra) and ra <= rk
+    if not ra or not (ra <= rk):
+        return None
+    kvals, avals = stores(k), stores(a)
+    if any(isinstance(n, ast.Attribute) and u(n) == f"self.{a}" for v in kvals for n in ast.walk(v)):
+        return "func"
+    if len(avals) == 1 and isinstance(avals[0], ast.Name) and any(avals[0].id in names_in(v) for v in kvals):
+        return "identity"
+    return "converted"
 
 
 def run(ctx: Ctx) -> None:
@@ -310,12 +332,28 @@ def run(ctx: Ctx) -> None:
                     if d and set(d[0]) <= key_reads:
                         ok, why = True, f"derived from {d[0]}: {d[1]}"
                         break
+            converted = None
             if not ok:
                 for c in H.mro(cname):
                     init = methods(H.classes[c][1]).get("__init__")
-                    if init is not None and any(_same_param_derivation(init, attr, k) for k in key_reads):
-                        ok, why = True, f"computed in {c}.__init__ from the same constructor input as a key attribute"
+                    if init is None:
+                        continue
+                    rel = {k: _same_param_derivation(init, attr, k) for k in sorted(key_reads)}
+                    good = [k for k, r_ in rel.items() if r_ in ("func", "identity")]
+                    if good:
+                        ok, why = True, f"key attribute `{good[0]}` is computed in {c}.__init__ from the stored `{attr}` ({rel[good[0]]})"
                         break
+                    conv = [k for k, r_ in rel.items() if r_ == "converted"]
+                    if conv:
+                        converted = (c, conv[0])
+            if not ok and converted is not None:
+                ctx.check("R1", False, mod, f"{cname}._key", keyfn,
+                          f"evaluation of {cname} reads `{attr}`, the key depends on `{converted[1]}`; in {converted[0]}.__init__ `{attr}` is a "
+                          f"CONVERSION of the constructor input while `{converted[1]}` is computed from the raw input, not from the stored "
+                          f"`{attr}`: equal stored data can get different keys (e.g. int vs float input of equal value) and different data "
+                          f"with equal raw bytes the same key", construct=f"{cname}: key digest `{converted[1]}` not computed from stored `{attr}`",
+                          facts={"key_reads": sorted(key_reads)})
+                continue
             ctx.check("R1", ok, mod, f"{cname}._key", keyfn,
                       f"evaluation of {cname} reads `{attr}` (via {sorted(via)}) but the key does not depend on it: two operators "
                       f"differing only in `{attr}` have equal keys", construct=f"{cname}._key omits {attr}",
@@ -412,6 +450,68 @@ def run(ctx: Ctx) -> None:
     else:
         raise Undecided("Operator._key: key is not built with str.join")
 
+    # ---------------- R3c the composite key covers EVERY child -------------------------------------
+    # Function evaluations (pp.ad.Function, surrogate operators) have any number of children.  Accepted: an iteration over the
+    # whole of self.children (comprehension / for / map) feeding the key, or constant subscripts 0..k-1 together with an
+    # iterated open slice [k:].  A key fed only by constant subscripts of self.children (first/last) drops the others.
+    okey_r = resolve_aliases(okey)
+    full_iter, open_from, const_idx = False, None, set()
+    for n_ in walk_local(okey_r):
+        its = []
+        if isinstance(n_, (ast.ListComp, ast.GeneratorExp, ast.SetComp)):
+            its = [g.iter for g in n_.generators]
+        elif isinstance(n_, ast.For):
+            its = [n_.iter]
+        elif isinstance(n_, ast.Call) and call_name(n_) == "map" and len(n_.args) == 2:
+            its = [n_.args[1]]
+        for it in its:
+            if isinstance(it, ast.Call) and call_name(it) in ("enumerate", "list", "tuple", "iter") and it.args:
+                it = it.args[0]
+            if u(it) == "self.children":
+                full_iter = True
+            elif isinstance(it, ast.Subscript) and u(it.value) == "self.children" and isinstance(it.slice, ast.Slice) \
+                    and it.slice.upper is None and it.slice.step is None:
+                lo = it.slice.lower
+                open_from = 0 if lo is None else (lo.value if isinstance(lo, ast.Constant) and isinstance(lo.value, int) else None)
+        if isinstance(n_, ast.Subscript) and u(n_.value) == "self.children" and isinstance(n_.slice, ast.Constant) and isinstance(n_.slice.value, int):
+            const_idx.add(n_.slice.value)
+        elif isinstance(n_, ast.Subscript) and u(n_.value) == "self.children" and isinstance(n_.slice, ast.UnaryOp) \
+                and isinstance(n_.slice.operand, ast.Constant):
+            const_idx.add(-n_.slice.operand.value)
+    if full_iter or (open_from is not None and set(range(open_from)) <= const_idx):
+        ctx.check("R3", True, ops, "Operator._key", okey, "the composite key iterates over all of self.children", construct="Operator._key: every child enters the key")
+    elif const_idx:
+        ctx.check("R3", False, ops, "Operator._key", okey,
+                  f"the composite key is built from self.children[{sorted(const_idx)}] only: an operator with more children (a function "
+                  f"evaluation with three or more arguments) gets the same key whatever its other arguments are",
+                  construct="Operator._key: every child enters the key", facts={"constant_subscripts": sorted(const_idx), "open_slice_from": open_from})
+    else:
+        raise Undecided("Operator._key: how the children enter the key is not of a recognised form")
+
+    # ---------------- R7 the hash is a function of the key alone ------------------------------------
+    n7 = 0
+    for cname in sorted(H.classes):
+        cmod, ccls = H.classes[cname]
+        hf = methods(ccls).get("__hash__")
+        if hf is None or "Operator" not in H.mro(cname):
+            continue
+        n7 += 1
+        reads = [a for a in self_reads(hf) if a not in ("_key", "__class__")]
+        uses_key = any(isinstance(c_, ast.Call) and isinstance(c_.func, ast.Attribute) and c_.func.attr == "_key" and u(c_.func.value) == "self"
+                       for c_ in ast.walk(hf))
+        uses_id = any(isinstance(c_, ast.Call) and isinstance(c_.func, ast.Name) and c_.func.id == "id" for c_ in ast.walk(hf))
+        supers = any(isinstance(c_, ast.Call) and call_name(c_) == "super" for c_ in ast.walk(hf))
+        if not uses_key and not reads and not uses_id and not supers:
+            raise Undecided(f"{cname}.__hash__: neither the key nor any attribute is used")
+        ok = (uses_key or supers) and not reads and not uses_id
+        ctx.check("R7", ok, cmod, f"{cname}.__hash__", hf,
+                  f"the hash of an operator must be a function of its key alone; {cname}.__hash__ also depends on "
+                  f"{['self.' + r_ for r_ in reads] + (['id()'] if uses_id else [])}"
+                  f"{'' if uses_key or supers else ' and does not use the key'}: structurally identical trees (equal keys) get different hashes",
+                  construct=f"{cname}.__hash__ depends on the key only", facts={"other_reads": reads, "uses_key": uses_key})
+    if n7 == 0:
+        raise AnchorError("no __hash__ found in the operator hierarchy (Operator.__hash__ expected)")
+
     # ---------------- R4 interpolation types --------------------------------------------------
     mat = ctx.repo.module(MATOPS)
     slicer_cls = mat.cls("ArraySlicer")
@@ -500,6 +600,11 @@ MUTANTS = [
     _m("variable-key-without-domain", 'self._cached_key = f"(var, name={self.name}, domain={str(self.domain.id)})"', 'self._cached_key = f"(var, name={self.name})"', "R1"),
     _m("merged-key-without-physics", '            s += f", physics_key={self._physics_key}"\n', "", "R1", file=ADUTILS),
     _m("divergence-key-without-dim", 'return f"(divergence, dim={self.dim}, subdomains={subdomain_ids})"', 'return f"(divergence, subdomains={subdomain_ids})"', "R1", file=GRIDOPS),
+    _m("seed-dense-hash-from-raw-input", "        self._hash_value: str = sha256(\n            self._values,", "        self._hash_value: str = sha256(\n            values,", "R1"),
+    _m("seed-composite-key-first-and-last-child", "            tmp = [self.operation.value] + [child._key() for child in self.children]\n",
+       "            left, right = self.children[0], self.children[-1]\n            tmp = [self.operation.value, left._key(), right._key()]\n", "R3"),
+    _m("seed-hash-includes-name", "        return hash(self._key())", "        return hash((self._name, self._key()))", "R7", control=True),
+    _m("hash-by-identity", "        return hash(self._key())", "        return id(self)", "R7"),
     _m("composite-key-without-operation", "tmp = [self.operation.value] + [child._key() for child in self.children]", "tmp = [child._key() for child in self.children]", "R3"),
     _m("key-with-object-id", 'self._cached_key = f"(scalar, {self._value})"', 'self._cached_key = f"(scalar, {self._value}, {id(self)})"', "R4"),
     _m("tdarray-key-without-name", 'f"(time_dependent_dense_array, name={self.name}, domains={domain_ids})"', 'f"(time_dependent_dense_array, domains={domain_ids})"', "R1"),
